@@ -9,6 +9,9 @@ pub mod log {
     pub(crate) use debug_ as debug;
 }
 
+pub mod bstr {
+use vstd::prelude::*;
+use crate::*;
 // bstr::ByteSlice::{find_byte, rfind_byte}: "Returns the index of the first
 // (last) occurrence of the given byte. If the byte does not occur, None."
 pub trait ByteSlice {
@@ -42,9 +45,12 @@ impl ByteSlice for [u8] {
     }
 }
 
+} // mod bstr
+
 // memchr::memchr_iter(needle, haystack).count(): number of occurrences.
 pub mod memchr {
-    use super::*;
+    use vstd::prelude::*;
+    use crate::*;
     pub struct Memchr<'h> { pub needle: u8, pub hay: &'h [u8] }
 
     #[verifier::external_body]
